@@ -23,6 +23,10 @@ pub struct StoreCase {
     /// label universe size (labels 0..universe)
     pub universe: u8,
     pub string_labels: bool,
+    /// labels of a type whose `Hash` is much coarser than its `Eq` (legal for `LabelType`): most labels of
+    /// the universe collide in every hash table
+    #[serde(default)]
+    pub coarse: bool,
     pub initial: Vec<u8>,
     pub ops: Vec<StoreOp>,
 }
@@ -52,6 +56,29 @@ impl MkLabel for usize {
 impl MkLabel for String {
     fn mk(l: u8) -> String {
         label_string(l)
+    }
+}
+
+/// A label type that is `Clone + Debug + Display + Eq + Hash` (all `LabelType` asks for) and whose hash
+/// only looks at part of the value: labels that differ under `Eq` share hash values all the time.
+#[derive(Clone, Debug, PartialEq, Eq, PartialOrd, Ord)]
+pub struct Coarse {
+    pub source: u8,
+    pub name: u8,
+}
+impl std::hash::Hash for Coarse {
+    fn hash<H: std::hash::Hasher>(&self, state: &mut H) {
+        state.write_u8(self.name % 3);
+    }
+}
+impl std::fmt::Display for Coarse {
+    fn fmt(&self, f: &mut std::fmt::Formatter<'_>) -> std::fmt::Result {
+        write!(f, "{}:{}", self.source, self.name)
+    }
+}
+impl MkLabel for Coarse {
+    fn mk(l: u8) -> Coarse {
+        Coarse { source: l % 4, name: l / 4 }
     }
 }
 
@@ -267,7 +294,7 @@ impl Store {
             })?;
         }
         if let Some(k) = interesting_removal_at {
-            if case.ops.len() >= k + 4 && rec.nontrivial(&(case.string_labels, &case.initial, &case.ops)) {
+            if case.ops.len() >= k + 4 && rec.nontrivial(&(case.string_labels, case.coarse, &case.initial, &case.ops)) {
                 rec.sample_sized(case.ops.len(), || json!({"case": case}));
             }
         }
@@ -294,7 +321,7 @@ impl Prop for Store {
         "C12"
     }
     fn rule(&self) -> String {
-        "Histories of 0-200 (quick) / 0-600 (thorough) operations new_argument / remove_argument / new_attack / remove_attack over a universe of 4-8 labels (80%) or 20-120 labels with a bias towards a few hub labels (20%, histories twice as long, so that adjacency lists of several dozen entries and ids in the hundreds arise) (usize or String), operands arbitrary (known or unknown, self-attacks, re-insertion, repeated removal), starting from new_with_labels with possibly repeated labels. After every step the whole observable state (counts, argument iteration, get_argument / get_argument_by_id / has_argument_with_id for every id ever issued, iter_attacks as a multiset, iter_attacks_from/to of every live argument) is compared with a set model, the returned Result with the model's precondition, ids with uniqueness / stability / no reuse. Non-trivial: the history removes an argument that has a self-attack or both incoming and outgoing attacks and goes on for >=3 more operations; distinct = history.".into()
+        "Histories of 0-200 (quick) / 0-600 (thorough) operations new_argument / remove_argument / new_attack / remove_attack over a universe of 4-8 labels (80%) or 20-120 labels with a bias towards a few hub labels (20%, histories twice as long, so that adjacency lists of several dozen entries and ids in the hundreds arise) (labels of type usize, String, or a type whose Hash is coarser than its Eq), operands arbitrary (known or unknown, self-attacks, re-insertion, repeated removal), starting from new_with_labels with possibly repeated labels. After every step the whole observable state (counts, argument iteration, get_argument / get_argument_by_id / has_argument_with_id for every id ever issued, iter_attacks as a multiset, iter_attacks_from/to of every live argument) is compared with a set model, the returned Result with the model's precondition, ids with uniqueness / stability / no reuse. Non-trivial: the history removes an argument that has a self-attack or both incoming and outgoing attacks and goes on for >=3 more operations; distinct = history.".into()
     }
     fn assumptions(&self) -> Vec<String> {
         vec!["the set model (BTreeMap/BTreeSet)".into(), "ids need not equal the insertion rank (mechanism, not checked)".into()]
@@ -302,13 +329,14 @@ impl Prop for Store {
     fn strategy(&self, tier: Tier) -> BoxedStrategy<StoreCase> {
         let maxlen = tier.pick(200usize, 600usize);
         // small universes (dense interaction) and large ones (long adjacency lists, many ids)
-        (prop_oneof![16 => 4u8..=8, 3 => 20u8..=48, 1 => 60u8..=120], any::<bool>())
-            .prop_flat_map(move |(universe, string_labels)| {
+        (prop_oneof![16 => 4u8..=8, 3 => 20u8..=48, 1 => 60u8..=120], prop_oneof![3 => Just((false, false)), 3 => Just((true, false)), 2 => Just((false, true))])
+            .prop_flat_map(move |(universe, (string_labels, coarse))| {
                 let init_max = if universe > 8 { universe as usize } else { 6 };
                 let len = if universe > 8 { maxlen * 2 } else { maxlen };
                 (vec(0..universe, 0..=init_max), vec(store_op(universe), 0..=len)).prop_map(move |(initial, ops)| StoreCase {
                     universe,
                     string_labels,
+                    coarse,
                     initial,
                     ops,
                 })
@@ -345,7 +373,7 @@ impl Prop for Store {
             frontier = next;
         }
         for (i, ops) in frontier.into_iter().enumerate() {
-            out.push(StoreCase { universe: 2, string_labels: i % 2 == 0, initial: vec![], ops });
+            out.push(StoreCase { universe: 2, string_labels: i % 3 == 0, coarse: i % 3 == 1, initial: vec![], ops });
         }
         (out, format!("all {}-step histories over two labels (12 operations per step), every prefix compared", maxlen))
     }
@@ -354,8 +382,16 @@ impl Prop for Store {
         crate::fuzzphase::fuzz_phase::<StoreCase>("store_ops", tier, seed, rec, seeds, 2_000_000, 600)
     }
     fn run(&self, case: &StoreCase, rec: &mut Rec) -> CheckResult {
-        rec.class(if case.string_labels { "string-labels" } else { "usize-labels" });
-        if case.string_labels {
+        rec.class(if case.coarse {
+            "labels-with-coarse-hash"
+        } else if case.string_labels {
+            "string-labels"
+        } else {
+            "usize-labels"
+        });
+        if case.coarse {
+            self.run_generic::<Coarse>(case, rec)
+        } else if case.string_labels {
             self.run_generic::<String>(case, rec)
         } else {
             self.run_generic::<usize>(case, rec)
